@@ -85,6 +85,9 @@ func planStmts(p *migrate.Plan) []stmt {
 				if a, ok := mc.(*schema.AddForeignKey); ok && a.F.RefTable != nil {
 					s.refs = append(s.refs, a.F.RefTable.Name)
 				}
+				if a, ok := mc.(*schema.ModifyForeignKey); ok && a.To.RefTable != nil {
+					s.refs = append(s.refs, a.To.RefTable.Name)
+				}
 			}
 		case *schema.DropTable:
 			s.kind, s.tab = "D", src.T.Name
@@ -195,7 +198,275 @@ func dumpSchema(s *schema.Schema) string {
 	return strings.Join(ts, "\n")
 }
 
+// invalidOrder: the first statement of the plan that comes before something it needs (absolute, not relative
+// to another plan): a table created / altered with a key to a table that the plan creates later, a table
+// dropped while a table that the plan drops later still references it.
+func invalidOrder(ps []stmt) string {
+	done := map[string]bool{} // tab+kind already executed
+	adds, drops := map[string]bool{}, map[string]bool{}
+	for _, s := range ps {
+		switch s.kind {
+		case "A":
+			adds[s.tab] = true
+		case "D":
+			drops[s.tab] = true
+		}
+	}
+	for _, s := range ps {
+		for _, r := range s.refs {
+			switch {
+			case s.kind == "D" && drops[r] && !done["D"+r]:
+				return fmt.Sprintf("%q runs while table %s, dropped later by the same plan, still references %s", trunc(s.cmd, 70), r, s.tab)
+			case s.kind != "D" && r != s.tab && adds[r] && !done["A"+r]:
+				return fmt.Sprintf("%q references table %s, which the same plan creates later", trunc(s.cmd, 90), r)
+			case s.kind == "M" && r == s.tab && adds[r] && !done["A"+r]:
+				return fmt.Sprintf("%q alters table %s before the same plan creates it", trunc(s.cmd, 70), r)
+			}
+		}
+		done[s.kind+s.tab] = true
+	}
+	return ""
+}
+
+func allPerms(n int) [][]int {
+	if n == 0 {
+		return [][]int{{}}
+	}
+	var res [][]int
+	for _, p := range allPerms(n - 1) {
+		for i := 0; i <= len(p); i++ {
+			q := append(append(append([]int{}, p[:i]...), n-1), p[i:]...)
+			res = append(res, q)
+		}
+	}
+	return res
+}
+
+// shapeSchema: small schemas for the exhaustive declaration orders -- tables "child" -> "parent" (and
+// "grandchild" -> "child") next to unrelated tables without any key (names chosen so that neither the
+// alphabetical nor the declaration order happens to be the dependency order); big: 10..14 unrelated tables around
+// a chain of four (a plan of more than 12 statements).
+func shapeSchema(d *dialect, shape int) *schema.Schema {
+	s := schema.New(d.schema)
+	tab := func(name string) *schema.Table {
+		t := schema.NewTable(name)
+		id := schema.NewIntColumn("id", d.intT)
+		ref := schema.NewIntColumn("ref", d.intT)
+		t.AddColumns(id, ref)
+		t.SetPrimaryKey(schema.NewPrimaryKey(id))
+		s.AddTables(t)
+		return t
+	}
+	fk := func(c, p *schema.Table) {
+		c.AddForeignKeys(schema.NewForeignKey("fk_" + c.Name + "_" + p.Name).SetTable(c).AddColumns(c.Columns[1]).SetRefTable(p).AddRefColumns(p.Columns[0]))
+	}
+	switch shape {
+	case 0: // child, unrelated, parent
+		c, _, p := tab("b_child"), tab("m_unrelated"), tab("z_parent")
+		fk(c, p)
+	case 1: // the same with the names the other way round
+		c, _, p := tab("z_child"), tab("m_unrelated"), tab("b_parent")
+		fk(c, p)
+	case 2: // grandchild -> child -> parent + one unrelated
+		g, c, _, p := tab("a_grandchild"), tab("k_child"), tab("m_unrelated"), tab("z_parent")
+		fk(g, c)
+		fk(c, p)
+	case 3: // two children of one parent + one unrelated
+		c1, c2, _, p := tab("a_child"), tab("z_child"), tab("m_unrelated"), tab("k_parent")
+		fk(c1, p)
+		fk(c2, p)
+	default: // big: 16..30 tables, three chains of 3..5 tables spread between unrelated ones (a plan of > 12 statements)
+		n := 16 + 7*(shape-6)
+		var chains [3][]*schema.Table
+		for i := 0; i < n; i++ {
+			if c := i % 5; c < 3 && len(chains[c]) < 3+c && i%2 == c%2 {
+				chains[c] = append(chains[c], tab(fmt.Sprintf("%c%d_link%02d", 'y'-rune(len(chains[c])*4+c), c, i)))
+			} else {
+				tab(fmt.Sprintf("%c%02d_unrelated", 'a'+rune((i*7)%26), i))
+			}
+		}
+		for _, ch := range chains {
+			for i := 0; i+1 < len(ch); i++ {
+				fk(ch[i], ch[i+1])
+			}
+		}
+	}
+	return s
+}
+
+// declOrders: every declaration order of the table blocks of the small shapes (and seeded orders + "children
+// first" of the big ones), on every dialect, create and drop: the plan must be valid as it stands.
+func declOrders(w *out.W, tier string) {
+	r := rng.FromEnv(0xC20D)
+	for _, d := range dialects {
+		for shape := 0; shape <= 8; shape++ {
+			if shape > 3 && shape < 6 {
+				continue // big shapes: 6, 7, 8 = 16, 17, 18 tables
+			}
+			src, err := d.marshal.MarshalSpec(shapeSchema(d, shape))
+			if err != nil {
+				w.Violation(fmt.Sprintf("decl-%s/%d", d.name, shape), "source-setup", "MarshalSpec failed: "+err.Error())
+				continue
+			}
+			var head string
+			var tabs []string
+			for _, b := range splitBlocks(string(src)) {
+				if strings.HasPrefix(b, "table ") {
+					tabs = append(tabs, b)
+				} else {
+					head += b
+				}
+			}
+			var orders [][]int
+			if shape <= 3 {
+				orders = allPerms(len(tabs))
+			} else {
+				n := 20
+				if tier == "thorough" {
+					n = 120
+				}
+				id := make([]int, len(tabs))
+				for i := range id {
+					id[i] = i
+				}
+				rev := make([]int, len(tabs))
+				for i := range rev {
+					rev[i] = len(tabs) - 1 - i
+				}
+				orders = append(orders, id, rev)
+				for k := 0; k < n; k++ {
+					p := append([]int(nil), id...)
+					for i := len(p) - 1; i > 0; i-- {
+						j := r.Intn(i + 1)
+						p[i], p[j] = p[j], p[i]
+					}
+					orders = append(orders, p)
+				}
+			}
+			for oi, ord := range orders {
+				var b strings.Builder
+				b.WriteString(head)
+				var names []string
+				for _, i := range ord {
+					b.WriteString(tabs[i])
+					names = append(names, strings.Fields(tabs[i])[1])
+				}
+				to, err := evalFiles(d, map[string]string{"schema.hcl": b.String()})
+				for _, scenario := range []string{"create", "drop"} {
+					id := fmt.Sprintf("decl-%s/%d/%s/o%d", d.name, shape, scenario, oi)
+					what := fmt.Sprintf("%s %s, tables declared in the order %s", d.name, scenario, strings.Join(names, " "))
+					if err != nil {
+						w.Violation(id, "source-perm-rejected", what+": eval: "+trunc(err.Error(), 200))
+						continue
+					}
+					from, to2 := schema.New(d.schema), to
+					if scenario == "drop" {
+						from, to2 = to, schema.New(d.schema)
+					}
+					changes, err2 := d.differ.SchemaDiff(from, to2)
+					if err2 != nil {
+						w.Violation(id, "source-perm-rejected", what+": diff: "+trunc(err2.Error(), 200))
+						continue
+					}
+					p, err2 := d.planner.PlanChanges(context.Background(), "p", changes)
+					if err2 != nil {
+						w.Violation(id, "source-perm-rejected", what+": plan: "+trunc(err2.Error(), 200))
+						continue
+					}
+					ps := planStmts(p)
+					w.ImplOnly(id, fmt.Sprintf("%d statements", len(ps)))
+					w.Count("decl-order:" + d.name)
+					if len(ps) >= 3 {
+						w.NonTrivial(id)
+					}
+					nt := 0
+					for _, st := range ps {
+						if st.kind == "A" || st.kind == "D" {
+							nt++
+						}
+					}
+					if nt != len(tabs) {
+						w.Violation(id, "source-content", fmt.Sprintf("%s: %d CREATE / DROP TABLE statements for %d tables", what, nt, len(tabs)))
+					}
+					if d.name == "sqlite" {
+						continue // SQLite's planner does not order by foreign keys (the engine accepts a child before its parent)
+					}
+					if bad := invalidOrder(ps); bad != "" {
+						w.Violation(id, "source-invalid-order", fmt.Sprintf("%s: %s", what, bad))
+					}
+				}
+			}
+		}
+	}
+}
+
+// declModify: a kept table whose key is re-pointed to a table the same change set creates, which references
+// the kept table back (a cycle through a ModifyForeignKey: DetachCycles detaches, only SortChanges can put
+// CREATE TABLE in front of the ALTER), plus an unrelated kept and an unrelated created table -- every declaration order of the current and
+// of the desired schema.
+func declModify(w *out.W) {
+	for _, d := range dialects {
+		if d.name == "sqlite" {
+			continue
+		}
+		build := func(desired bool, order []int) *schema.Schema {
+			s := schema.New(d.schema)
+			mk := func(name string) *schema.Table {
+				t := schema.NewTable(name)
+				id := schema.NewIntColumn("id", d.intT)
+				t.AddColumns(id, schema.NewIntColumn("ref", d.intT))
+				t.SetPrimaryKey(schema.NewPrimaryKey(id))
+				return t
+			}
+			kept, old, unrel, created := mk("k_kept"), mk("z_old_parent"), mk("m_unrelated"), mk("b_new_parent")
+			link := func(sym string, c, p *schema.Table) {
+				c.AddForeignKeys(schema.NewForeignKey(sym).SetTable(c).AddColumns(c.Columns[1]).SetRefTable(p).AddRefColumns(p.Columns[0]))
+			}
+			ts := []*schema.Table{kept, old, unrel}
+			if desired {
+				link("fk_kept", kept, created)
+				link("fk_back", created, kept)
+				ts = append(ts, created, mk("r_unrelated_new"))
+			} else {
+				link("fk_kept", kept, old)
+			}
+			for _, i := range order {
+				if i < len(ts) {
+					s.AddTables(ts[i])
+				}
+			}
+			return s
+		}
+		for fi, fo := range allPerms(3) {
+			for ti, to := range allPerms(5) {
+				id := fmt.Sprintf("decl-modify-%s/f%d/t%d", d.name, fi, ti)
+				from, want := build(false, fo), build(true, to)
+				what := fmt.Sprintf("%s: key of k_kept re-pointed from z_old_parent to the created b_new_parent (which references k_kept); current tables declared in order %v, desired in order %v", d.name, fo, to)
+				changes, err := d.differ.SchemaDiff(from, want)
+				if err != nil {
+					w.Violation(id, "source-perm-rejected", what+": diff: "+trunc(err.Error(), 200))
+					continue
+				}
+				p, err := d.planner.PlanChanges(context.Background(), "p", changes)
+				if err != nil {
+					w.Violation(id, "source-perm-rejected", what+": plan: "+trunc(err.Error(), 200))
+					continue
+				}
+				ps := planStmts(p)
+				w.ImplOnly(id, fmt.Sprintf("%d statements", len(ps)))
+				w.Count("decl-modify:" + d.name)
+				w.NonTrivial(id)
+				if bad := invalidOrder(ps); bad != "" {
+					w.Violation(id, "source-invalid-order", fmt.Sprintf("%s: %s", what, bad))
+				}
+			}
+		}
+	}
+}
+
 func sourceMain(w *out.W, tier string) {
+	declOrders(w, tier)
+	declModify(w)
 	perms := 6
 	if tier == "thorough" {
 		perms = 40
